@@ -1,0 +1,19 @@
+//go:build verif
+
+package asyncprocessor
+
+import (
+	"github.com/bluenviron/gortsplib/v5/pkg/ringbuffer"
+)
+
+// VerifBuffer returns the ring buffer of the processor.
+// It exists for the verification harness only (build tag verif).
+func (w *Processor) VerifBuffer() *ringbuffer.RingBuffer {
+	return w.buffer
+}
+
+// VerifDone returns the channel that is closed when the consumer routine exits.
+// It exists for the verification harness only (build tag verif).
+func (w *Processor) VerifDone() <-chan struct{} {
+	return w.done
+}
